@@ -3,10 +3,12 @@ package main
 import (
 	"fmt"
 	"net"
+	"os"
 	"sort"
 	"strconv"
 	"strings"
 	"sync"
+	"syscall"
 	"time"
 
 	"github.com/vmware/go-ipfix/pkg/entities"
@@ -17,6 +19,11 @@ import (
 //   bld new | bld prep <t|d|u|o> <id> | bld add <0|1|2> <extra> <tid> <elems> | bld upd | bld reset | bld obs
 // engine "exp": the exporting process on an in-memory connection (C02, C08, C09)
 //   exp new <dom> | exp seq <n> | exp send <path> <t|d|u> <setid> <tid@elems;...> | exp tids | exp getseq
+//   exp new <dom> json          the process is created in JSON mode (ExporterInput.SendJSONRecord): a send answers
+//                               `okj <writes>` / `err -` (error, nothing written) / `errj <writes>`; the JSON text stays out
+//   exp failnext <err|refused|short<k>>   the NEXT Write on the connection returns (0, error) / (0, ECONNREFUSED as a
+//                               connected UDP socket reports it) / (k, nil) having taken only k bytes; the send (or refresh)
+//                               during which that happened answers with a trailing ` injected`
 func init() {
 	engines["bld"] = engBld
 	engines["exp"] = engExp
@@ -185,11 +192,15 @@ func engBld(a []string) string {
 	return "bad-op"
 }
 
-// memConn records everything written to it.
+// memConn records everything written to it. failKind != "": the next Write gets that outcome instead.
 type memConn struct {
-	mu     sync.Mutex
-	writes [][]byte
-	closed bool
+	mu       sync.Mutex
+	writes   [][]byte
+	closed   bool
+	failKind string // "", "err", "refused", "short"
+	shortK   int
+	injected bool // the pending outcome was given to a Write since the last takeInjected
+	calls    int  // Write calls that returned a nil error since the last take
 }
 
 func (c *memConn) Read(b []byte) (int, error) { select {} }
@@ -199,8 +210,51 @@ func (c *memConn) Write(b []byte) (int, error) {
 	if c.closed {
 		return 0, fmt.Errorf("closed")
 	}
+	if c.failKind != "" {
+		kind := c.failKind
+		c.failKind = ""
+		c.injected = true
+		switch kind {
+		case "err":
+			return 0, fmt.Errorf("injected write error")
+		case "refused":
+			// what a connected UDP socket returns for a Write after an ICMP port unreachable came back
+			return 0, &net.OpError{Op: "write", Net: "udp", Source: c.LocalAddr(), Addr: c.RemoteAddr(),
+				Err: os.NewSyscallError("write", syscall.ECONNREFUSED)}
+		default: // short: k bytes are taken (at most the whole slice), no error
+			k := c.shortK
+			if k > len(b) {
+				k = len(b)
+			}
+			if k > 0 {
+				c.writes = append(c.writes, append([]byte{}, b[:k]...))
+			}
+			c.calls++
+			return k, nil
+		}
+	}
 	c.writes = append(c.writes, append([]byte{}, b...))
+	c.calls++
 	return len(b), nil
+}
+func (c *memConn) failNext(kind string, k int) {
+	c.mu.Lock()
+	c.failKind, c.shortK = kind, k
+	c.mu.Unlock()
+}
+func (c *memConn) takeInjected() bool {
+	c.mu.Lock()
+	defer c.mu.Unlock()
+	i := c.injected
+	c.injected = false
+	return i
+}
+func (c *memConn) takeCalls() int {
+	c.mu.Lock()
+	defer c.mu.Unlock()
+	n := c.calls
+	c.calls = 0
+	return n
 }
 func (c *memConn) Close() error                       { c.mu.Lock(); c.closed = true; c.mu.Unlock(); return nil }
 func (c *memConn) LocalAddr() net.Addr                { return &net.TCPAddr{IP: net.IPv4(127, 0, 0, 1), Port: 1} }
@@ -219,6 +273,7 @@ func (c *memConn) take() [][]byte {
 var expProc *exporter.ExportingProcess
 var expConn *memConn
 var expReused entities.Set
+var expJSON bool
 
 // writesToken renders the messages written during one call; the export time (bytes 4..8) of
 // every message of at least 16 bytes is checked against the wall-clock window and zeroed.
@@ -236,6 +291,11 @@ func writesToken(ws [][]byte, t0, t1 int64) (string, bool) {
 				timeOK = false
 			}
 			w[4], w[5], w[6], w[7] = 0, 0, 0, 0
+		} else {
+			// the head of a message cut by a short write (exp failnext short<k>): what is there of the export time is zeroed
+			for i := 4; i < 8 && i < len(w); i++ {
+				w[i] = 0
+			}
 		}
 		parts = append(parts, hexs(w))
 	}
@@ -247,7 +307,7 @@ func engExp(a []string) string {
 		return "bad-op"
 	}
 	if a[0] == "new" {
-		if len(a) != 2 {
+		if len(a) != 2 && !(len(a) == 3 && a[2] == "json") {
 			return "bad-op"
 		}
 		dom, err := strconv.ParseUint(a[1], 10, 32)
@@ -256,13 +316,41 @@ func engExp(a []string) string {
 		}
 		expConn = &memConn{}
 		expReused = nil
-		expProc = exporter.VerifNewExporter(expConn, uint32(dom))
+		expJSON = len(a) == 3
+		if expJSON {
+			expProc = exporter.VerifNewExporterJSON(expConn, uint32(dom))
+		} else {
+			expProc = exporter.VerifNewExporter(expConn, uint32(dom))
+		}
 		return "ok"
 	}
 	if expProc == nil {
 		return "bad-op"
 	}
+	injTok := func() string {
+		if expConn.takeInjected() {
+			return " injected"
+		}
+		return ""
+	}
 	switch a[0] {
+	case "failnext":
+		if len(a) != 2 {
+			return "bad-op"
+		}
+		switch {
+		case a[1] == "err" || a[1] == "refused":
+			expConn.failNext(a[1], 0)
+		case strings.HasPrefix(a[1], "short"):
+			k, err := strconv.Atoi(a[1][5:])
+			if err != nil || k < 0 {
+				return "bad-op"
+			}
+			expConn.failNext("short", k)
+		default:
+			return "bad-op"
+		}
+		return "ok"
 	case "seq":
 		n, err := strconv.ParseUint(a[1], 10, 32)
 		if err != nil {
@@ -302,10 +390,11 @@ func engExp(a []string) string {
 		if !timeOK {
 			tk = "timebad"
 		}
+		expConn.takeCalls()
 		if err != nil {
-			return fmt.Sprintf("err %s", w)
+			return fmt.Sprintf("err %s%s", w, injTok())
 		}
-		return fmt.Sprintf("ok %d %s %s", len(ws), w, tk)
+		return fmt.Sprintf("ok %d %s %s%s", len(ws), w, tk, injTok())
 	case "send":
 		if len(a) != 5 {
 			return "bad-op"
@@ -357,15 +446,28 @@ func engExp(a []string) string {
 		t0 := time.Now().Unix()
 		n, err := expProc.SendSet(set)
 		t1 := time.Now().Unix()
+		if expJSON {
+			// JSON mode: only the number of (successful) Write calls is reported, the text is not
+			expConn.take()
+			calls := expConn.takeCalls()
+			switch {
+			case err == nil:
+				return fmt.Sprintf("okj %d%s", calls, injTok())
+			case calls == 0:
+				return "err -" + injTok()
+			}
+			return fmt.Sprintf("errj %d%s", calls, injTok())
+		}
+		expConn.takeCalls()
 		w, timeOK := writesToken(expConn.take(), t0, t1)
 		tk := "timeok"
 		if !timeOK {
 			tk = "timebad"
 		}
 		if err != nil {
-			return fmt.Sprintf("err %s", w)
+			return fmt.Sprintf("err %s%s", w, injTok())
 		}
-		return fmt.Sprintf("ok %d %s %s", n, w, tk)
+		return fmt.Sprintf("ok %d %s %s%s", n, w, tk, injTok())
 	}
 	return "bad-op"
 }
